@@ -24,6 +24,15 @@ theorem C15_all_delegate_to_slice :
     above are the ONLY definitions of these operators, also when vectors are compared or hashed as elements of a slice -/
 theorem C15_no_second_definition : providedOverrides = 0 := by decide
 
+/-- every operand combination the crate offers `==` for — vector with vector, slice, slice reference (both operand
+    orders), mutable slice reference (both orders), `Vec`, array and array reference — gets its `PartialEq` from the one
+    delegating macro whose body `deleg_partialEq` classifies, and no other macro in that file generates comparison impls -/
+theorem C15_every_eq_impl_from_the_delegating_macro :
+    eqMacroUses = ["[]&[T],MiniVec<U>", "[]&mut[T],MiniVec<U>", "[]MiniVec<T>,&[U]", "[]MiniVec<T>,&mut[U]",
+      "[]MiniVec<T>,MiniVec<U>", "[]MiniVec<T>,[U]", "[]MiniVec<T>,alloc::vec::Vec<U>",
+      "[constN:usize]MiniVec<T>,&[U;N]", "[constN:usize]MiniVec<T>,[U;N]"] ∧ otherEqMacros = 0 := by
+  decide
+
 /-- an operator implemented in a delegating shape, as a function of the two handles -/
 def delegated {β} (shape : Deleg) (sliceOp : List Slot → List Slot → β) (dflt : VSt → VSt → β)
     (a b : VSt) : β :=
@@ -64,5 +73,6 @@ end MV.Props
 
 #print axioms MV.Props.C15_all_delegate_to_slice
 #print axioms MV.Props.C15_no_second_definition
+#print axioms MV.Props.C15_every_eq_impl_from_the_delegating_macro
 #print axioms MV.Props.C15_operator_is_slice_operator
 #print axioms MV.Props.C15_independent_of_storage
